@@ -238,6 +238,20 @@ class Program:
 # --------------------------------------------------------------------------------------------
 # function-level helpers
 
+def clone_expr(e: ast.AST) -> ast.AST:
+    """Detached copy of an expression (AST nodes carry `_parent` links to the whole module, so
+    copy.deepcopy would copy the module)."""
+    n = ast.parse(ast.unparse(e), mode="eval").body
+    for node in ast.walk(n):
+        for child in ast.iter_child_nodes(node):
+            child._parent = node  # type: ignore[attr-defined]
+    for node in ast.walk(n):
+        if not hasattr(node, "lineno"):
+            continue
+        node.lineno = getattr(e, "lineno", 0)
+    return n
+
+
 def func_params(fn: ast.FunctionDef) -> List[str]:
     a = fn.args
     return [x.arg for x in a.posonlyargs + a.args] + ([a.vararg.arg] if a.vararg else []) + \
@@ -346,10 +360,10 @@ def inline_locals(fn, expr: ast.expr, depth: int = 6) -> ast.expr:
             if isinstance(node.ctx, ast.Load) and node.id not in params and self.d > 0:
                 v = single_def(fn, node.id)
                 if v is not None:
-                    return T(self.d - 1).visit(copy.deepcopy(v))
+                    return T(self.d - 1).visit(clone_expr(v))
             return node
 
-    return T(depth).visit(copy.deepcopy(expr))
+    return T(depth).visit(clone_expr(expr))
 
 
 def guards_of(node, fn, include_exits: bool = True) -> List[Tuple[str, bool]]:
@@ -423,7 +437,7 @@ def stmt_of(node):
 
 def alpha_norm(expr: ast.expr, bound: Optional[Dict[str, str]] = None) -> str:
     """Canonical text of an expression with comprehension / lambda variables renamed."""
-    e = copy.deepcopy(expr)
+    e = clone_expr(expr)
     counter = [0]
     env = dict(bound or {})
 
